@@ -136,7 +136,7 @@ pub struct ComputedCase {
 }
 
 fn how_strategy() -> BoxedStrategy<How> {
-    let k = || prop_oneof![3 => scalar_strategy(), 2 => (0u8..3).prop_map(ScalarR::NearR), 1 => Just(ScalarR::Zero)];
+    let k = || prop_oneof![3 => scalar_strategy(), 2 => (0u8..3).prop_map(ScalarR::NearR), 2 => (0u8..5, -8i16..=8).prop_map(|(m, d)| ScalarR::NearMultR(m, d)), 1 => Just(ScalarR::Zero)];
     prop_oneof![
         3 => k().prop_map(How::MulAssign),
         3 => k().prop_map(How::AffMul),
